@@ -204,7 +204,7 @@ OpEvCancel(S, o) == Out([S EXCEPT !.evh[o.e].live = FALSE], "ok")
 OpReg(S, o) ==
     IF o.v = "bad" THEN Out(S, "badtype")
     ELSE IF S.val[o.t].k # "none" /\ ~Has(S, "dupValidatorReplaces") THEN Out(S, "duplicate")
-    ELSE Out([S EXCEPT !.val[o.t] = [k |-> o.v, inl |-> o.inl, to |-> o.to, conc |-> o.conc, gen |-> S.vgen + 1], !.vgen = @ + 1],
+    ELSE Out([S EXCEPT !.val[o.t] = [k |-> IF o.v = "weird" THEN "ignore" ELSE o.v, inl |-> o.inl, to |-> o.to, conc |-> o.conc, gen |-> S.vgen + 1], !.vgen = @ + 1],
              IF S.val[o.t].k # "none" THEN "duplicate" ELSE "ok")
 OpUnreg(S, o) ==
     IF S.val[o.t].k = "none" THEN Out(S, IF Has(S, "unregAbsentOk") THEN "ok" ELSE "absent")
@@ -325,7 +325,8 @@ Snap(S) ==
 
 ----------------------------------------------------------------------------
 (* named validator variants, prologues and the compact encoding of operations used by the scenario generators *)
-V(v, inl, to, conc) == [v |-> v, inl |-> inl, to |-> to, conc |-> conc]
+V(v, inl, to, conc) == [v |-> v, inl |-> inl, to |-> to, conc |-> conc, ty |-> ""]
+VT(v, ty) == [v |-> v, inl |-> FALSE, to |-> 0, conc |-> 0, ty |-> ty]
 ValDef(n) ==
     CASE n = "accept" -> V("accept", FALSE, 0, 0)
       [] n = "reject" -> V("reject", FALSE, 0, 0)
@@ -335,6 +336,12 @@ ValDef(n) ==
       [] n = "rejectInl" -> V("reject", TRUE, 0, 0)
       [] n = "rejectTo" -> V("reject", FALSE, 300, 0)
       [] n = "acceptTo" -> V("accept", FALSE, 700, 3)
+      \* the four function types makeValidator accepts ("" = func(...) ValidationResult), and a result outside the enumeration
+      [] n = "rejectBool" -> VT("reject", "bool")
+      [] n = "acceptBool" -> VT("accept", "bool")
+      [] n = "rejectV" -> VT("reject", "V")
+      [] n = "ignoreEx" -> VT("ignore", "Ex")
+      [] n = "weird" -> VT("weird", "")
       [] n = "block1" -> V("block", FALSE, 0, 1)
       [] n = "block2" -> V("block", FALSE, 0, 2)
 
